@@ -36,6 +36,7 @@ def _have_atheris():
 def worker(argv):
     prop_id, tier, outdir = argv[0], argv[1], argv[2]
     flags = argv[3:]
+    core.die_with_parent()
     sys.path.insert(0, DEPS)
     import atheris
     if core.REPO in sys.path:
